@@ -26,6 +26,15 @@ def frames_for(kind, last_frm, code_e=0x51, code_r=11):
         return [{"type": "ACK", "res": 0, "nrdy": 0, "ack": n}]
     if kind in ("nak", "latenak", "slownak"):
         return [{"type": "NAK", "res": 0, "nrdy": 0, "ack": n}]
+    # acknowledgement numbers that do not cover the outstanding frame n (neither n nor n + 1): the frame is NOT acknowledged
+    if kind == "strayack":
+        return [{"type": "ACK", "res": 0, "nrdy": 0, "ack": (n + 2) % 8}]
+    if kind == "strayack5":
+        return [{"type": "ACK", "res": 0, "nrdy": 0, "ack": (n + 5) % 8}]
+    if kind == "straynak":
+        return [{"type": "NAK", "res": 0, "nrdy": 0, "ack": (n + 3) % 8}]
+    if kind == "straydata":
+        return [{"type": "DATA", "frm": 5, "retx": 0, "ack": (n + 4) % 8, "pl": 900 + n}]
     if kind == "nakcover":
         return [{"type": "NAK", "res": 0, "nrdy": 0, "ack": (n + 1) % 8}]
     if kind in ("error", "lateerror"):
@@ -122,6 +131,14 @@ def run(ctx: Ctx):
         for n in range(1, 3 if ctx.quick else 4):
             for script in itertools.product(PAIRS + ("silence", "nak"), repeat=n):
                 yield ("three", 6, list(script), (0x51, 11))
+        # stray acknowledgement numbers (ACK / NAK / the number piggy-backed on a DATA frame) mixed with the ordinary reactions
+        stray = ("strayack", "strayack5", "straynak", "straydata", "cover", "nak", "silence")
+        for n in range(1, 4 if ctx.quick else 5):
+            for script in itertools.product(stray, repeat=n):
+                if not any(x.startswith("stray") for x in script):
+                    continue
+                for wl, prefix in (("one", 0), ("three", 6), ("staggered", 7)):
+                    yield (wl, prefix, list(script), (0x51, 11))
         # adaptive-timeout ramps: answers arriving just in time drive the timeout up; silence afterwards must still fire within the bounds
         for up in range(1, 9):
             for tail in (("silence",), ("silence", "silence"), ("slownak", "silence"), ("silence", "slowcover", "silence"), ("latecover",)):
@@ -133,7 +150,7 @@ def run(ctx: Ctx):
         # random long runs
         rng = ctx.rng
         for _ in range(100 if ctx.quick else 5000):
-            script = [rng.choice(alpha + ["cover"] * 6) for _ in range(rng.randint(10, 60))]
+            script = [rng.choice(alpha + ["cover"] * 6 + ["strayack", "strayack5", "straynak", "straydata"]) for _ in range(rng.randint(10, 60))]
             yield ("staggered", rng.randrange(8), script, (rng.randrange(256), rng.randrange(256)))
 
     def meta_of(j):
@@ -163,7 +180,7 @@ def run(ctx: Ctx):
     ctx.rule = (f"every script over {len(alpha)} per-attempt peer reactions (incl. answers in the timer's own loop iteration and answers 1 ms before the "
                 f"timer) up to length {D} x 3 workloads (one send; three queued sends starting at frame number 6; sends submitted while the script runs "
                 f"starting at 7){'' if ctx.quick else f', every script of length {D + 1} over {len(core)} core reactions'}, every full-budget script of consuming "
-                "reactions, paired reactions in one read, adaptive-timeout ramps, all 256 reset/error codes, random long scripts; each followed by silence "
+                "reactions, paired reactions in one read, acknowledgement numbers that do not cover the outstanding frame (ACK, NAK, piggy-backed on DATA) mixed with ordinary reactions, adaptive-timeout ramps, all 256 reset/error codes, random long scripts; each followed by silence "
                 "until every send ended; distinct = distinct (workload, prefix, script, codes)")
     ctx.exhaustive = False
     ctx.assumptions += ["virtual-time event loop (bv.vloop) and rebinding of the `time` name in bellows.ash",
